@@ -29,7 +29,7 @@ const char *g_probe_name[MAXPROBE];
 static int nprobe;
 
 static const world_t *worlds[] = {
-    &world_lists, &world_trees, &world_heap, &world_map, &world_hash, &world_vector, &world_string, &world_array, &world_mem, &world_memc,
+    &world_lists, &world_trees, &world_heap, &world_map, &world_hash, &world_vector, &world_string, &world_array, &world_mem, &world_memc, &world_sort,
 };
 #define NWORLDS (sizeof(worlds) / sizeof(worlds[0]))
 
